@@ -208,6 +208,9 @@ func validateCondition(typesys *typesystem.TypeSystem, tk *openfgav1.TupleKey) e
 			} else if tuple.IsTypedWildcard(tk.GetUser()) {
 				// This is a wildcard tuple but the directlyRelatedType tuple is not for wildcard.
 				continue
+			} else if userRelation != "" {
+				// This is a userset tuple but the directlyRelatedType tuple is for a plain object.
+				continue
 			}
 
 			return nil
@@ -233,7 +236,8 @@ func validateCondition(typesys *typesystem.TypeSystem, tk *openfgav1.TupleKey) e
 
 	validCondition := false
 	for _, directlyRelatedType := range typeRestrictions {
-		if directlyRelatedType.GetType() == userType && directlyRelatedType.GetCondition() == tk.GetCondition().GetName() {
+		if directlyRelatedType.GetType() == userType && directlyRelatedType.GetCondition() == tk.GetCondition().GetName() &&
+			restrictionHasUserShape(directlyRelatedType, tk.GetUser(), userRelation) {
 			validCondition = true
 			break
 		}
@@ -273,6 +277,19 @@ func validateCondition(typesys *typesystem.TypeSystem, tk *openfgav1.TupleKey) e
 	}
 
 	return nil
+}
+
+// restrictionHasUserShape reports whether a type restriction (already known to be of the user's type)
+// has the shape of the tuple's user: the same userset relation, a typed wildcard, or a plain object.
+func restrictionHasUserShape(ref *openfgav1.RelationReference, user, userRelation string) bool {
+	switch {
+	case userRelation != "":
+		return ref.GetRelation() == userRelation
+	case tuple.IsTypedWildcard(user):
+		return ref.GetWildcard() != nil
+	default:
+		return ref.GetRelationOrWildcard() == nil
+	}
 }
 
 // FilterInvalidTuples filters out tuples that aren't valid according to the provided model.
